@@ -3,11 +3,13 @@
 # runs the quick checks against the scratch worktree /tmp/mut-<PROP> that holds the seeded change
 id=$1; shift
 prop=${id%%-*}
+round=${id##*-}
+wt=/tmp/mut-$prop; [ "$round" = "2" ] && wt=/tmp/m2-$prop
 props=${@:-$prop}
 mkdir -p out
 for p in $props; do
   s=$(date +%s)
-  VERIF_REPO=/tmp/mut-$prop python3 check.py $p --tier ${TIER:-quick} > out/mut-$id.$p.log 2>&1
+  VERIF_REPO=$wt python3 check.py $p --tier ${TIER:-quick} > out/mut-$id.$p.log 2>&1
   rc=$?
   echo "seed=$id check=$p exit=$rc wall=$(( $(date +%s) - s ))s $(grep -E '^VIOLATION|^INCONCLUSIVE|^RESULT' out/mut-$id.$p.log | head -2 | tr '\n' ' ' | cut -c1-300)"
 done
